@@ -9,7 +9,7 @@
  *  C03.xattr.idtable.in_bounds   only locations[0 .. count) is written, count
  *                                as computed by alloc_location_table
  *  C03.xattr.idtable.entries     the k-th record is (start_ref, count, size)
- *                                of the k-th set (witness k)
+ *                                of the k-th set (checked at every call)
  *  C03.xattr.idtable.locations   locations[0] = 0 and locations[j] = start of
  *                                the j-th metadata block of the id table
  *                                (witness j); one location per block
@@ -41,8 +41,7 @@ static size_t g_off;		/* bytes buffered in the current block */
 static sqfs_u64 g_blk;		/* start of the current block */
 static unsigned g_nblk;		/* blocks started so far (incl. current) */
 static sqfs_u64 g_blk_start[NBLK + 1];
-static size_t g_apps, g_w;
-static sqfs_xattr_id_t g_rec_w;
+static size_t g_apps;
 static unsigned g_faults, g_flushes;
 static size_t g_alloc_n;
 static sqfs_u64 *g_alloc_buf;
@@ -69,8 +68,13 @@ int sqfs_meta_writer_append(sqfs_meta_writer_t *m, const void *data,
 
 	VERIF_ASSERT(m == &g_mw && size == sizeof(sqfs_xattr_id_t) &&
 		     VERIF_R_OK(data, size), "C03.xattr.env.append_pre");
-	if (g_apps == g_w)
-		g_rec_w = *(const sqfs_xattr_id_t *)data;
+	/* the call number is concrete: compare the record with its set here */
+	VERIF_ASSERT(g_apps < NSETS &&
+		     ((const sqfs_xattr_id_t *)data)->xattr ==
+		     g_kv[g_apps].start_ref &&
+		     ((const sqfs_xattr_id_t *)data)->count == g_kv[g_apps].count &&
+		     ((const sqfs_xattr_id_t *)data)->size ==
+		     g_kv[g_apps].size_bytes, "C03.xattr.idtable.entries");
 	g_apps += 1;
 	if (verif_nd_bool("append_fails")) {
 		g_faults += 1;
@@ -124,7 +128,6 @@ void harness(void)
 	size_t count = 0, i, j;
 	int ret;
 
-	g_w = verif_nd_size("w");
 	j = verif_nd_size("j");
 	for (i = 0; i < NSETS; ++i) {
 		g_kv[i].next = i + 1 < NSETS ? &g_kv[i + 1] : NULL;
@@ -158,17 +161,11 @@ void harness(void)
 	if (ret == 0) {
 		VERIF_ASSERT(g_apps == NSETS && g_flushes == 1,
 			     "C03.xattr.idtable.entries");
-		if (g_w < NSETS)
-			VERIF_ASSERT(g_rec_w.xattr == g_kv[g_w].start_ref &&
-				     g_rec_w.count == g_kv[g_w].count &&
-				     g_rec_w.size == g_kv[g_w].size_bytes,
-				     "C03.xattr.idtable.entries");
 		VERIF_ASSERT(locations[0] == 0, "C03.xattr.idtable.locations");
 		if (j < count)
 			VERIF_ASSERT(locations[j] == g_blk_start[j],
 				     "C03.xattr.idtable.locations");
 		VERIF_COVER(j == count - 1);
-		VERIF_COVER(g_w == NSETS - 1);
 	}
 	VERIF_COVER(ret != 0);
 }
